@@ -75,7 +75,8 @@ CHECKS.update(
             text=(
                 "Bounded in instances, complete in solutions: on each enumerated small instance the real ILP / TetriSched-Gurobi / TetriSched-CPLEX / Z3 schedule() runs, the solver "
                 "model it built is read back and translated to z3, and 'model AND NOT (capacity at every instant, existing worker, own strategy, time >= now/release)' must be unsat; "
-                "run-level: one decision per task, only offered tasks, live cluster and task states unchanged. Greedy/Clockwork policies: small-scope enumeration (when registered). "
+                "run-level: one decision per task, only offered tasks, live cluster and task states unchanged. EDF / FIFO / LSF schedule() are under pyvc contracts (one decision per offered task, "
+                "the virtual cluster moves exactly by the recorded decisions, placement time = now, live pools untouched); Clockwork by small-scope enumeration. "
                 "The fit test Resources.__gt__ / Worker.can_accomodate_strategy is proved."
             ),
             note="Bounded: instance bound in the evidence. Trusted: read-back API of gurobipy/docplex/z3, the model->z3 translation in bounded/milp_capture.py, solver feasibility answers.",
@@ -91,8 +92,8 @@ CHECKS.update(
         "C12": dict(
             category="exploration",
             technique="captured solver-model implication for the deadline rows / cell pruning on bounded instances; run-level cancellation check",
-            text="Bounded in instances (deadlines past / tight / loose), complete in solutions: placed => start + chosen runtime <= deadline at every feasible point; hopeless tasks cancelled (CPLEX) or unplaced (ILP, Gurobi).",
-            note="Bounded. Greedy/Clockwork admission is covered by the sched_small stand-in when registered.",
+            text="Bounded in instances (deadlines past / tight / loose), complete in solutions: placed => start + chosen runtime <= deadline at every feasible point; hopeless tasks cancelled (CPLEX) or unplaced (ILP, Gurobi). EDF / FIFO admission is proved (pyvc obligations admit.cancel_only_if_hopeless / admit.hopeless_is_cancelled: a cancellation is issued iff enforcement is on and deadline < now + fastest runtime); Clockwork admission by small-scope enumeration.",
+            note="Bounded for the optimisation policies and Clockwork; EDF/FIFO admission proved against the assumed get_fastest_strategy contract.",
             design_ref="DESIGN.md section 6 (C12)",
         ),
         "C14": dict(
@@ -199,10 +200,18 @@ CHECKS.update(
             design_ref="DESIGN.md section 6 (C07)",
         ),
         "C13": dict(
-            category="exploration",
-            technique="bounded enumeration of scheduler inputs (<= 4 offered tasks incl. ties, 1-2 strategies, 1-2 pools x 1-2 workers, partially occupied) with an independent ledger replay of the returned decisions; pyvc contracts on the fit test",
-            text="Bounded stand-in: for EDF/FIFO/LSF every unplaced task must fit nowhere once exactly the higher-or-equal-priority placed tasks are accounted for, decisions must be jointly feasible and ordered by the policy's key. The fit test (Resources.__gt__, Worker.can_accomodate_strategy) is proved for all inputs; the scheduling loops are not yet under a pyvc contract.",
-            note="Bounded (bound in the evidence).",
+            category="proof",
+            technique=PYVC + " on EDFScheduler / FIFOScheduler / LSFScheduler.schedule with loop invariants and program-point assertions; bounded enumeration of scheduler inputs as cross-check",
+            text=(
+                "Proved for all inputs of the three greedy policies: the task list is ordered by the policy's key (obligation order.*: EDF deadline then graph name, FIFO release time, "
+                "LSF deadline - now - remaining time; the key lambda is evaluated symbolically and compared with the spec key); at the point where a task is answered 'unplaced' no "
+                "strategy of it fits any pool of the virtual cluster in its current occupancy (unplaced.nothing_fits), and the occupancy of the virtual cluster has moved exactly by the "
+                "recorded decisions (placed.virtual_state_is_recorded_decision: the (task, strategy, pool) passed to place_task is the one the decision records), so every placed task "
+                "of higher or equal priority is accounted for and nothing else. One decision per offered task; the live cluster is not touched. The cluster is abstracted by a ghost "
+                "occupancy version per pool (can_accomodate_strategy is an uninterpreted function of it; place_task bumps it); what 'fits' means is the proved Worker-level fit test "
+                "plus the bounded ledger stand-in. Bounded cross-check: every small input up to the stated bound, decisions replayed on an independent ledger."
+            ),
+            note=BASE_NOTE + " Specific: WorkerPool.can_accomodate_strategy / place_task, WorkerPools.__copy__/__deepcopy__, Workload.get_schedulable_tasks, get_fastest_strategy, Task.remaining_time, Placement(s).__init__ are assumed contracts; sorted() is a library contract (permutation + ordered by the key under python's <).",
             design_ref="DESIGN.md section 6 (C13)",
         ),
         "C15": dict(
